@@ -2,7 +2,10 @@
 
 package service
 
-import "github.com/mdzio/go-mqtt/message"
+import (
+	"github.com/mdzio/go-mqtt/message"
+	"github.com/mdzio/go-mqtt/sessions"
+)
 
 // C18: concurrent clients never cause unsynchronised access to shared broker
 // state. Broker scenarios run with the engine's happens-before race detector
@@ -98,4 +101,44 @@ func H18_teardown_delivery() {
 	vrtAssert("C18.harness_hook_ran", raced)
 	vrtExchange(p, &specPkt{Typ: specPUBLISH, Flags: 2, ID: 2, Topic: []byte("t"), Payload: []byte("2")})
 	vrtReach("C18.teardown_delivery")
+}
+
+// P5: one goroutine collects acknowledged requests and keeps reading them
+// (as processAcked does, outside the queue's mutex) while another registers
+// the next request on the same queue.
+func H18_ackqueue() {
+	sess := &sessions.Session{}
+	cm := message.NewConnectMessage()
+	cm.SetVersion(4)
+	cm.SetClientID([]byte("c"))
+	if err := sess.Init(cm); err != nil {
+		panic(err)
+	}
+	q := sess.Pub1ack
+	mk := func(id uint16) *message.PublishMessage {
+		m := message.NewPublishMessage()
+		m.SetTopic([]byte("t"))
+		m.SetPayload([]byte{byte(id)})
+		m.SetQoS(1)
+		m.SetPacketID(id)
+		return m
+	}
+	n := vrtBound("N18window", 16)
+	for i := 1; i <= n; i++ {
+		q.Wait(mk(uint16(i)), nil)
+	}
+	ack := message.NewPubackMessage()
+	ack.SetPacketID(1)
+	q.Ack(ack)
+	sum := 0
+	vrtGo(func() {
+		for _, am := range q.Acked() {
+			m := message.NewPublishMessage()
+			m.Decode(am.Msgbuf)
+			sum += int(m.PacketID())
+		}
+	})
+	vrtGo(func() { q.Wait(mk(uint16(n+1)), nil) })
+	vrtJoin()
+	vrtReach("C18.ackqueue")
 }
